@@ -36,7 +36,7 @@ T_Begin       == IsEv({"Begin"}) /\ Begin(Ev.t, Ev.write, Ev.managed) /\ Consume
 T_TxnWrite    == IsEv({"TxnWrite"}) /\ TxnWrite(Ev.t, Ev.kind, Ev.m, Ev.p) /\ ResultMatches /\ Consume
 T_TxnTruncate == IsEv({"TxnTruncate"}) /\ TxnTruncate(Ev.t, ToSet(Ev.ms)) /\ ResultMatches /\ Consume
 T_Commit      == IsEv({"Commit"}) /\ Commit(Ev.t) /\ Consume
-T_End         == IsEv({"Abort", "FnError", "FnPanic"}) /\ EndWithout(Ev.t, Ev.name) /\ Consume
+T_End         == IsEv({"Abort", "FnError", "FnPanic", "FnGoexit"}) /\ EndWithout(Ev.t, Ev.name) /\ Consume
 T_FnReturn    == IsEv({"FnReturn"}) /\ FnReturn(Ev.t) /\ Consume
 T_Forget      == IsEv({"Forget"}) /\ Forget(Ev.t) /\ Consume
 T_RouterIter  == IsEv({"RouterIter"}) /\ RouterIter(Ev.s) /\ Consume
